@@ -133,6 +133,7 @@ type Ctx struct {
 	SkipQuantAxioms bool
 	// OpaqueExt: opaque "at" function symbol -> its extent function symbol (frame instances).
 	OpaqueExt map[string]string
+	selCache  map[[2]int]*Term
 	fresh  map[string]int
 }
 
@@ -940,6 +941,19 @@ func (c *Ctx) IntCmp(op string, a, b *Term) *Term {
 // ---- arrays
 
 func (c *Ctx) Select(a, i *Term) *Term {
+	if c.selCache == nil {
+		c.selCache = map[[2]int]*Term{}
+	}
+	key := [2]int{a.ID, i.ID}
+	if r, ok := c.selCache[key]; ok {
+		return r
+	}
+	r := c.selectUncached(a, i)
+	c.selCache[key] = r
+	return r
+}
+
+func (c *Ctx) selectUncached(a, i *Term) *Term {
 	if a.Sort.Kind != SArray {
 		panic("select on non-array " + a.Sort.String())
 	}
